@@ -101,7 +101,8 @@ def main(argv):
         r = json.load(open(replay))
         prop = r.get("property", prop)
         print("replaying %s (re-evaluating all rules of %s on the current tree; looking for key %s)" % (replay, prop, r.get("key")))
-    props = PROPS if prop == "all" else [prop]
+    have = [p for p in PROPS if os.path.exists(os.path.join(os.path.dirname(os.path.abspath(__file__)), "rules", p.lower() + ".py"))]
+    props = have if prop == "all" else [prop]
     rc = 0
     for p in props:
         rc |= run_property(p, tier, w, seed)
